@@ -28,6 +28,31 @@ theorem alongStep_only_shortens (cur : StepLimit ℝ) (s : ℝ) (a : Act) (cl ab
   ⟨simStepLimit_le cur s a, fun b hb h => simStepLimit_tie cur s b a hb h,
    propagation_le cur cl ab p hp, propagation_action cur cl ab p⟩
 
+/-- when the propagator reports a boundary hit (and the track is neither stopped nor looping) the
+    post-step action IS the boundary action and the step length is the propagated distance —
+    whatever the relation between that distance and the current limit, in particular on an exact
+    TIE `distance = limit` (e.g. `fixed_step_limiter` dividing the distance to a surface).  The
+    applier as written assigns both unconditionally; it does not go through `step_limit`, which
+    would keep the physics action on a tie (`simStepLimit_tie`) and leave the track on the surface
+    without crossing it. -/
+theorem boundary_tie_takes_boundary_action (cur : StepLimit ℝ) (cl ab : Bool)
+    (p : Propagation ℝ) (hb : p.boundary = true) (hl : (cl && p.looping) = false)
+    (hs : cur.step ≠ some 0) :
+    propagationApplier cur cl ab p = ⟨some p.distance, .boundary⟩
+      ∧ (cur.step = some p.distance →
+          (propagationApplier cur cl ab p).action = .boundary
+            ∧ simStepLimit cur p.distance .boundary = cur) := by
+  have h1 : propagationApplier cur cl ab p = ⟨some p.distance, .boundary⟩ := by
+    unfold propagationApplier
+    cases hc : cur.step with
+    | none => simp [hl, hb]
+    | some s =>
+      have hne : s ≠ 0 := by
+        intro h0; apply hs; rw [hc, h0]
+      simp [hne, hl, hb]
+  refine ⟨h1, fun ht => ⟨by rw [h1], simStepLimit_tie cur p.distance p.distance .boundary ht
+    (le_refl _)⟩⟩
+
 /-- ★ the step taken never exceeds the physics limit chosen before the step: with the limit
     `L` from `calc_physics_step_limit` and the linear propagator asked for `L`, the step after
     the propagation applier is ≤ L, and it is positive when L and the boundary distance are -/
@@ -189,6 +214,12 @@ example : ∃ L : ℝ, (calcPhysicsStepLimit (⟨1 / 10, 1 / 5, 0, 1 / 100000000
   unfold calcPhysicsStepLimit discreteStep
   stp_simp
   norm_num
+
+/-- the tie case is not vacuous: limit 1/4 from the fixed limiter, boundary at exactly 1/4 -/
+example : propagationApplier (⟨some (1 / 4), .fixed⟩ : StepLimit ℝ) false false ⟨1 / 4, true, false⟩
+    = ⟨some (1 / 4), .boundary⟩ :=
+  (boundary_tie_takes_boundary_action _ false false ⟨1 / 4, true, false⟩ rfl rfl
+    (by intro h; have := Option.some.inj h; norm_num at this)).1
 
 /-- `mfp_stays_nonneg` is not vacuous: mfp 2, xs 1, step 1/2 leaves 3/2 -/
 example : (trackUpdater .alive .boundary (2 : ℝ) (1 / 2) 1 0).1 = 3 / 2 := by
